@@ -559,3 +559,517 @@ Section Runs.
     destruct (crit && (e_now st' <=? t_end) && negb (quiescent st')); auto.
   Qed.
 End Runs.
+
+(* ================================================================ timeline *)
+Lemma fold_min_le l : forall h, fold_left Z.min l h <= h /\ (forall d, In d l -> fold_left Z.min l h <= d).
+Proof.
+  induction l as [|x l IH]; intros h; simpl.
+  - split; [lia|tauto].
+  - destruct (IH (Z.min h x)) as [H1 H2]. split; [lia|].
+    intros d [->|Hd]; [lia|auto].
+Qed.
+
+Lemma fold_min_in l : forall h, fold_left Z.min l h = h \/ In (fold_left Z.min l h) l.
+Proof.
+  induction l as [|x l IH]; intros h; simpl; auto.
+  destruct (IH (Z.min h x)) as [H|H]; [|auto].
+  rewrite H. destruct (Z.min_spec h x) as [[_ E]|[_ E]]; rewrite E; auto.
+Qed.
+
+Lemma zmin_list_spec l D : zmin_list l = Some D -> In D l /\ forall d, In d l -> D <= d.
+Proof.
+  destruct l as [|h t]; simpl; [discriminate|]. intros E. injection E as <-.
+  destruct (fold_min_le t h) as [H1 H2]. split.
+  - destruct (fold_min_in t h) as [H|H]; [rewrite H|]; auto.
+  - intros d [<-|Hd]; auto.
+Qed.
+
+Lemma zmin_list_none l : zmin_list l = None -> l = [].
+Proof. destruct l; simpl; [auto|discriminate]. Qed.
+
+(* _PyTimeline.advance moves `now` to the nearest deadline: it never passes an armed deadline *)
+Lemma timeline_no_overshoot st d : In d (deadlines st) -> e_now (tl_advance st) <= d.
+Proof.
+  intros H. unfold tl_advance. destruct (zmin_list (deadlines st)) as [D|] eqn:E.
+  - simpl. apply (zmin_list_spec _ _ E); auto.
+  - apply zmin_list_none in E. rewrite E in H. destruct H.
+Qed.
+
+Lemma timeline_lands_on_deadline st :
+  deadlines st <> [] -> In (e_now (tl_advance st)) (deadlines st).
+Proof.
+  intros H. unfold tl_advance. destruct (zmin_list (deadlines st)) as [D|] eqn:E.
+  - simpl. apply (zmin_list_spec _ _ E).
+  - apply zmin_list_none in E. contradiction.
+Qed.
+
+Lemma timeline_monotone st :
+  (forall d, In d (deadlines st) -> e_now st <= d) -> e_now st <= e_now (tl_advance st).
+Proof.
+  intros H. unfold tl_advance. destruct (zmin_list (deadlines st)) as [D|] eqn:E; [|lia].
+  simpl. apply H. apply (zmin_list_spec _ _ E).
+Qed.
+
+Lemma timeline_idle st : deadlines st = [] -> tl_advance st = st.
+Proof. intros H. unfold tl_advance. rewrite H. reflexivity. Qed.
+
+(* a process timer (clock waker) fires exactly when `now` lands on its deadline *)
+Lemma ps_fire_timer D p d :
+  ps_timer p = Some d ->
+  (d = D -> ps_run (ps_fire D p) = true /\ ps_timer (ps_fire D p) = None) /\
+  (d <> D -> ps_run (ps_fire D p) = ps_run p /\ ps_timer (ps_fire D p) = Some d).
+Proof.
+  intros H. unfold ps_fire. rewrite H. simpl. split; intros E.
+  - subst. rewrite Z.eqb_refl, orb_true_r. auto.
+  - apply Z.eqb_neq in E. rewrite E, orb_false_r. auto.
+Qed.
+
+Lemma proc_timer_deadline st k d :
+  (k < length (e_procs st))%nat -> ps_timer (nth k (e_procs st) no_pstate) = Some d -> In d (deadlines st).
+Proof.
+  intros L H. unfold deadlines. apply in_or_app. left. apply in_flat_map.
+  exists (nth k (e_procs st) no_pstate). split; [apply nth_In; auto|]. rewrite H. simpl. auto.
+Qed.
+
+Lemma tb_pos_deadline st k p d :
+  (k < length (e_tbs st))%nat -> In p (t_pos (tb_trig (nth k (e_tbs st) no_tb))) -> tp_dl p = Some d ->
+  In d (deadlines st).
+Proof.
+  intros L Hp H. unfold deadlines. apply in_or_app. right. apply in_flat_map.
+  exists (nth k (e_tbs st) no_tb). split; [apply nth_In; auto|].
+  unfold pos_deadlines. apply in_flat_map. exists p. split; auto. rewrite H. simpl. auto.
+Qed.
+
+(* ---------- delays ---------- *)
+(* awaiting a combination that contains delay(d) at time `now` arms a deadline at exactly now + d *)
+Lemma delay_armed spec os now d :
+  In (TDelay d) spec -> In (TP (TDelay d) true false (Some (now + d))) (t_pos (fresh_trig spec os now)).
+Proof.
+  intros H. unfold fresh_trig. simpl.
+  apply (in_map (fun t => TP t true false (match t with TDelay d => Some (now + d) | _ => None end)) spec (TDelay d) H).
+Qed.
+
+(* when the timeline fires deadline D, a waiting trigger becomes active and exactly the elements with deadline D are hit *)
+Lemma tl_fire_exact D T :
+  t_broken T = false -> t_waiting T = true -> existsb (pos_due D) (t_pos T) = true ->
+  t_active (tl_fire D T) = true /\
+  t_pos (tl_fire D T) = map (fun p => if pos_due D p then TP (tp_trig p) (tp_reg p) true None else p) (t_pos T).
+Proof. intros B W E. unfold tl_fire. rewrite E, B, W. simpl. auto. Qed.
+
+Lemma tl_fire_not_due D T : existsb (pos_due D) (t_pos T) = false -> tl_fire D T = T.
+Proof. intros E. unfold tl_fire. rewrite E. reflexivity. Qed.
+
+(* a testbench waiting on delay(d) armed at time t is woken by the timeline at time t + d exactly:
+   no earlier (the element is due only at its deadline) and the timeline cannot pass t + d while it is armed *)
+Lemma delay_exact st k p t d :
+  (k < length (e_tbs st))%nat ->
+  In p (t_pos (tb_trig (nth k (e_tbs st) no_tb))) -> tp_dl p = Some (t + d) ->
+  e_now (tl_advance st) <= t + d /\
+  (pos_due (e_now (tl_advance st)) p = true <-> e_now (tl_advance st) = t + d).
+Proof.
+  intros L Hp H. split.
+  - apply timeline_no_overshoot. eapply tb_pos_deadline; eauto.
+  - unfold pos_due. rewrite H. rewrite Z.eqb_eq. split; auto.
+Qed.
+
+(* ---------- the clock process ---------- *)
+Lemma clock_run_initial slot phase period l cu :
+  hd 1 l <> 0 -> clock_run slot phase period l cu = PR [0] [] (Some phase).
+Proof. destruct l as [|[|x|x] l]; simpl; intros H; auto; contradiction. Qed.
+
+Lemma clock_run_toggle slot phase period l cu :
+  hd 1 l = 0 -> clock_run slot phase period l cu = PR [0] [W slot (b2z (nth slot cu 0 =? 0)) (-1)] (Some (period / 2)).
+Proof. destruct l as [|[|x|x] l]; simpl; intros H; auto; discriminate. Qed.
+
+(* the clock process in isolation with the timeline: run j happens at time t_j with local state l_j *)
+Fixpoint clk_sys (slot : nat) (phase period : Z) (j : nat) : list Z * Z :=
+  match j with
+  | O => ([1], 0)
+  | S j' =>
+      let (l, t) := clk_sys slot phase period j' in
+      let r := clock_run slot phase period l [] in
+      (r_local r, t + match r_delay r with Some d => d | None => 0 end)
+  end.
+
+(* toggle k (k = 0, 1, ...) = run k+1 of the process happens at exactly phase + k * (period // 2) fs *)
+Lemma clock_edges_exact slot phase period k :
+  clk_sys slot phase period (S k) = ([0], phase + Z.of_nat k * (period / 2)).
+Proof.
+  induction k as [|k IH].
+  - simpl. f_equal. lia.
+  - replace (clk_sys slot phase period (S (S k)))
+      with (let (l, t) := clk_sys slot phase period (S k) in
+            let r := clock_run slot phase period l [] in
+            (r_local r, t + match r_delay r with Some d => d | None => 0 end)) by reflexivity.
+    rewrite IH. cbv zeta. cbn [clock_run r_local r_delay]. f_equal.
+    rewrite ?Zpos_P_of_succ_nat, ?Nat2Z.inj_succ. lia.
+Qed.
+
+(* what a toggle does: clk.update(not clk.curr) with the full mask *)
+Lemma clock_toggle_writes slot phase period k cu :
+  r_writes (clock_run slot phase period (fst (clk_sys slot phase period (S k))) cu) =
+  [W slot (b2z (nth slot cu 0 =? 0)) (-1)].
+Proof. rewrite clock_edges_exact. reflexivity. Qed.
+
+Lemma clock_first_run_silent slot phase period cu :
+  r_writes (clock_run slot phase period (fst (clk_sys slot phase period 0)) cu) = [].
+Proof. reflexivity. Qed.
+
+(* odd periods: a full cycle lasts period - 1 fs (the high and low phases are both period // 2) *)
+Lemma clock_full_cycle slot phase period k :
+  0 < period ->
+  snd (clk_sys slot phase period (S (S (S k)))) - snd (clk_sys slot phase period (S k)) = period - period mod 2.
+Proof.
+  intros Hp. rewrite !clock_edges_exact. cbn [snd]. rewrite !Nat2Z.inj_succ.
+  pose proof (Z.div_mod period 2 ltac:(lia)). lia.
+Qed.
+
+Lemma clock_half_period_zero slot phase k : snd (clk_sys slot phase 1 (S k)) = phase.
+Proof. rewrite clock_edges_exact. cbn [snd]. change (1 / 2) with 0. lia. Qed.
+
+(* in the engine: a runnable clock process k arms its next wake-up at exactly now + (phase | period // 2) *)
+Lemma clock_step_engine ps st k slot phase period :
+  (k < length (e_procs st))%nat ->
+  nth k ps no_proc = clock_proc slot phase period ->
+  ps_run (nth k (e_procs st) no_pstate) = true ->
+  let p := nth k (e_procs st) no_pstate in
+  let r := clock_run slot phase period (ps_local p) (currs (e_slots st)) in
+  let st' := run_proc ps st k in
+  e_slots st' = apply_writes (r_writes r) (e_slots st) /\
+  ps_run (nth k (e_procs st') no_pstate) = false /\
+  ps_local (nth k (e_procs st') no_pstate) = [0] /\
+  ps_timer (nth k (e_procs st') no_pstate) =
+    Some (e_now st + (if hd 1 (ps_local p) =? 0 then period / 2 else phase)) /\
+  e_now st' = e_now st.
+Proof.
+  intros L HP R p r st'. subst st' r p. unfold run_proc. rewrite R. rewrite HP.
+  unfold proc_step. cbn [p_trig clock_proc p_run]. cbn [e_slots e_procs e_now].
+  rewrite nth_set_nth_eq by auto. cbn [ps_run ps_local ps_timer].
+  set (p := nth k (e_procs st) no_pstate). destruct (Z.eq_dec (hd 1 (ps_local p)) 0) as [E|E].
+  - rewrite (clock_run_toggle _ _ _ _ _ E). rewrite E. simpl. auto.
+  - rewrite (clock_run_initial _ _ _ _ _ E). apply Z.eqb_neq in E. rewrite E. simpl. auto.
+Qed.
+
+(* ... and the timeline wakes it when `now` is exactly that deadline, never passing it *)
+Lemma clock_wake_exact st k d :
+  (k < length (e_procs st))%nat -> ps_timer (nth k (e_procs st) no_pstate) = Some d ->
+  e_now (tl_advance st) <= d /\
+  (e_now (tl_advance st) = d -> ps_run (nth k (e_procs (tl_advance st)) no_pstate) = true) /\
+  (e_now (tl_advance st) <> d ->
+     ps_run (nth k (e_procs (tl_advance st)) no_pstate) = ps_run (nth k (e_procs st) no_pstate) /\
+     ps_timer (nth k (e_procs (tl_advance st)) no_pstate) = Some d).
+Proof.
+  intros L H. pose proof (proc_timer_deadline st k d L H) as I. split; [apply timeline_no_overshoot; auto|].
+  unfold tl_advance. destruct (zmin_list (deadlines st)) as [D|] eqn:E.
+  - cbn [e_now e_procs]. rewrite (nth_indep _ no_pstate (ps_fire D no_pstate)) by (rewrite map_length; auto).
+    rewrite map_nth. destruct (ps_fire_timer D _ _ H) as [F1 F2]. split; intros X.
+    + apply F1; auto.
+    + apply F2; auto.
+  - apply zmin_list_none in E. rewrite E in I. destruct I.
+Qed.
+
+(* the default phase of add_clock: round-half-even of period / 2 *)
+Lemma default_phase_even period : Z.even period = true -> default_phase period = period / 2.
+Proof. intros H. unfold default_phase. rewrite H. reflexivity. Qed.
+
+Lemma default_phase_odd period :
+  Z.even period = false ->
+  default_phase period = period / 2 + (period / 2) mod 2 /\ Z.even (default_phase period) = true.
+Proof.
+  intros H. unfold default_phase. rewrite H. destruct (Z.even (period / 2)) eqn:E.
+  - split; auto. rewrite Zmod_even, E. lia.
+  - split. rewrite Zmod_even, E. lia. rewrite Z.even_add, E. reflexivity.
+Qed.
+
+(* ================================================================ a converged delta leaves the design settled *)
+Lemma run_proc_procs_length ps st k : length (e_procs (run_proc ps st k)) = length (e_procs st).
+Proof.
+  unfold run_proc. destruct (ps_run (nth k (e_procs st) no_pstate)); auto.
+  destruct proc_step. simpl. apply set_nth_length.
+Qed.
+
+Lemma proc_step_not_runnable pr now p cu nx : ps_run (fst (proc_step pr now p cu nx)) = false.
+Proof.
+  unfold proc_step. cbv zeta beta. destruct (p_trig pr); [reflexivity|].
+  destruct (ps_first p); [destruct (has_changed (t :: l)); reflexivity|].
+  destruct (t_broken (ps_trig p)); reflexivity.
+Qed.
+
+Lemma run_proc_clears ps st k : ps_run (nth k (e_procs (run_proc ps st k)) no_pstate) = false.
+Proof.
+  unfold run_proc. destruct (ps_run (nth k (e_procs st) no_pstate)) eqn:R; auto.
+  pose proof (proc_step_not_runnable (nth k ps no_proc) (e_now st) (nth k (e_procs st) no_pstate)
+                (currs (e_slots st)) (nexts (e_slots st))) as H.
+  destruct proc_step as [p' ws]. simpl in *.
+  destruct (Nat.lt_ge_cases k (length (e_procs st))) as [L|L].
+  - rewrite nth_set_nth_eq; auto.
+  - rewrite set_nth_beyond by auto. rewrite nth_overflow; auto.
+Qed.
+
+Lemma run_proc_keeps_idle ps st k j :
+  ps_run (nth j (e_procs st) no_pstate) = false -> ps_run (nth j (e_procs (run_proc ps st k)) no_pstate) = false.
+Proof.
+  intros H. destruct (Nat.eq_dec k j) as [->|N]; [apply run_proc_clears|].
+  unfold run_proc. destruct (ps_run (nth k (e_procs st) no_pstate)); auto.
+  destruct proc_step. simpl. rewrite nth_set_nth_neq; auto.
+Qed.
+
+Lemma fold_run_proc_keeps_idle ps o : forall st j,
+  ps_run (nth j (e_procs st) no_pstate) = false ->
+  ps_run (nth j (e_procs (fold_left (run_proc ps) o st)) no_pstate) = false.
+Proof. induction o; intros; simpl; auto. apply IHo. apply run_proc_keeps_idle; auto. Qed.
+
+Lemma fold_run_proc_clears ps o : forall st j,
+  In j o -> ps_run (nth j (e_procs (fold_left (run_proc ps) o st)) no_pstate) = false.
+Proof.
+  induction o as [|k o IH]; intros st j H; simpl in *; [tauto|].
+  destruct H as [->|H]; [|apply IH; auto].
+  apply fold_run_proc_keeps_idle. apply run_proc_clears.
+Qed.
+
+Lemma commit_slot_flag ps st ch i :
+  commit_slot ps (st, ch) i = (st, ch) \/ snd (commit_slot ps (st, ch) i) = true.
+Proof.
+  unfold commit_slot. destruct (nth_error (e_slots st) i); auto.
+  destruct (sp s && negb (sc s =? sn s)); auto.
+Qed.
+
+Lemma fold_commit_true ps o : forall st, snd (fold_left (commit_slot ps) o (st, true)) = true.
+Proof.
+  induction o as [|i o IH]; intros st; cbn [fold_left]; auto.
+  destruct (commit_slot_flag ps st true i) as [E|E].
+  - rewrite E. apply IH.
+  - destruct (commit_slot ps (st, true) i) as [st1 c]. simpl in E. subst c. apply IH.
+Qed.
+
+(* `converged` means no slot changed, no waker ran: the commit phase was the identity *)
+Lemma fold_commit_unchanged ps o : forall st st',
+  fold_left (commit_slot ps) o (st, false) = (st', false) -> st' = st.
+Proof.
+  induction o as [|i o IH]; intros st st' H; cbn [fold_left] in H.
+  - congruence.
+  - destruct (commit_slot_flag ps st false i) as [E|E].
+    + rewrite E in H. apply IH; auto.
+    + destruct (commit_slot ps (st, false) i) as [st1 c]. simpl in E. subst c.
+      pose proof (fold_commit_true ps o st1) as T. rewrite H in T. discriminate.
+Qed.
+
+Definition covers_procs (o : orders) (st : estate) : Prop :=
+  forall k, (k < length (e_procs st))%nat -> In k (o_proc o).
+
+Lemma trig_step_procs_length st o : length (e_procs (trig_step st o)) = length (e_procs st).
+Proof.
+  destruct o; simpl.
+  - destruct (t_active (ps_trig (nth k (e_procs st) no_pstate))); auto. simpl. apply set_nth_length.
+  - destruct (t_active (tb_trig (nth k (e_tbs st) no_tb))); auto.
+Qed.
+
+Lemma fold_trig_step_procs_length o : forall st, length (e_procs (fold_left trig_step o st)) = length (e_procs st).
+Proof. induction o; intros; simpl; auto. rewrite IHo. apply trig_step_procs_length. Qed.
+
+Lemma fold_run_proc_length ps o : forall st, length (e_procs (fold_left (run_proc ps) o st)) = length (e_procs st).
+Proof. induction o; intros; simpl; auto. rewrite IHo. apply run_proc_procs_length. Qed.
+
+(* step_design returns (a testbench's set() returns) only in a state where no process is runnable and `pending`
+   is empty: every woken process has run and every queued change is committed *)
+Lemma converged_delta_settled ps o st st' :
+  run_delta ps o st = (st', true) -> covers_procs o st ->
+  (forall k, ps_run (nth k (e_procs st') no_pstate) = false) /\
+  (forall s, In s (e_slots st') -> sp s = false).
+Proof.
+  unfold run_delta. intros H C.
+  destruct (fold_left (commit_slot ps) (o_commit o)
+              (fold_left (run_proc ps) (o_proc o) (fold_left trig_step (o_trig o) st), false)) as [st3 ch] eqn:E.
+  injection H as H1 H2. destruct ch; [discriminate|].
+  apply fold_commit_unchanged in E. subst st3. subst st'. cbn [e_procs e_slots]. split.
+  - intros k. destruct (Nat.lt_ge_cases k (length (e_procs st))) as [L|L].
+    + apply fold_run_proc_clears. apply C; auto.
+    + rewrite nth_overflow; auto.
+      rewrite fold_run_proc_length, fold_trig_step_procs_length. auto.
+  - intros s Hs. unfold clear_pending in Hs. apply in_map_iff in Hs. destruct Hs as (x & <- & _). reflexivity.
+Qed.
+
+Definition covers_oracle (orc : oracle) (np : nat) : Prop := forall n k, (k < np)%nat -> In k (o_proc (orc n)).
+
+Lemma run_delta_procs_length ps o st : length (e_procs (fst (run_delta ps o st))) = length (e_procs st).
+Proof.
+  unfold run_delta.
+  destruct (fold_left (commit_slot ps) (o_commit o)
+              (fold_left (run_proc ps) (o_proc o) (fold_left trig_step (o_trig o) st), false)) as [st3 ch] eqn:E.
+  cbn [fst e_procs].
+  assert (G : forall oo x, length (e_procs (fst (fold_left (commit_slot ps) oo x))) = length (e_procs (fst x))).
+  { induction oo as [|i oo IH]; intros [s c]; simpl; auto. rewrite IH. unfold commit_slot.
+    destruct (nth_error (e_slots s) i); auto. destruct (sp s0 && negb (sc s0 =? sn s0)); auto.
+    simpl. apply mapi_from_length. }
+  specialize (G (o_commit o) (fold_left (run_proc ps) (o_proc o) (fold_left trig_step (o_trig o) st), false)).
+  rewrite E in G. cbn [fst] in G. rewrite G, fold_run_proc_length, fold_trig_step_procs_length. reflexivity.
+Qed.
+
+Lemma settle_settled ps orc fuel : forall st st',
+  settle ps orc fuel st = (st', true) -> covers_oracle orc (length (e_procs st)) ->
+  (forall k, ps_run (nth k (e_procs st') no_pstate) = false) /\
+  (forall s, In s (e_slots st') -> sp s = false).
+Proof.
+  induction fuel as [|f IH]; intros st st' H C; simpl in H; [discriminate|].
+  destruct (run_delta ps (orc (e_deltas st)) st) as [st1 conv] eqn:E. destruct conv.
+  - injection H as <-. eapply converged_delta_settled; eauto. intros k L. apply C; auto.
+  - apply IH in H; auto.
+    pose proof (run_delta_procs_length ps (orc (e_deltas st)) st) as Len. rewrite E in Len. simpl in Len.
+    rewrite Len. auto.
+Qed.
+
+(* TestbenchContext.set = write + step_design(): when it converges, it returns a settled design *)
+Lemma set_returns_settled ps orc sfuel sig sh v st st' :
+  settle ps orc sfuel (tb_write sig sh v st) = (st', true) ->
+  covers_oracle orc (length (e_procs st)) ->
+  tb_set ps orc sfuel sig sh v st = st' /\
+  (forall k, ps_run (nth k (e_procs st') no_pstate) = false) /\
+  (forall s, In s (e_slots st') -> sp s = false).
+Proof.
+  intros H C. split; [unfold tb_set; rewrite H; reflexivity|].
+  eapply settle_settled; eauto.
+Qed.
+
+(* ================================================================ sampling happens before the woken logic runs *)
+Lemma run_proc_tbs ps st k : e_tbs (run_proc ps st k) = e_tbs st.
+Proof. unfold run_proc. destruct (ps_run _); auto. destruct proc_step; reflexivity. Qed.
+
+Lemma fold_run_proc_tbs ps o : forall st, e_tbs (fold_left (run_proc ps) o st) = e_tbs st.
+Proof. induction o; intros; simpl; auto. rewrite IHo. apply run_proc_tbs. Qed.
+
+Lemma trig_step_slots st o : e_slots (trig_step st o) = e_slots st.
+Proof.
+  destruct o; simpl.
+  - destruct (t_active (ps_trig (nth k (e_procs st) no_pstate))); auto.
+  - destruct (t_active (tb_trig (nth k (e_tbs st) no_tb))); auto.
+Qed.
+
+Lemma fold_trig_step_slots o : forall st, e_slots (fold_left trig_step o st) = e_slots st.
+Proof. induction o; intros; simpl; auto. rewrite IHo. apply trig_step_slots. Qed.
+
+Lemma commit_slot_tb_res ps x i k :
+  tb_res (nth k (e_tbs (fst (commit_slot ps x i))) no_tb) = tb_res (nth k (e_tbs (fst x)) no_tb).
+Proof.
+  destruct x as [st ch]. unfold commit_slot. destruct (nth_error (e_slots st) i); auto.
+  destruct (sp s && negb (sc s =? sn s)); auto. cbn [fst e_tbs].
+  destruct (Nat.lt_ge_cases k (length (e_tbs st))) as [L|L].
+  - rewrite (nth_indep _ no_tb (tb_notify i (sc s) (sn s) no_tb)) by (rewrite map_length; auto).
+    rewrite map_nth. reflexivity.
+  - rewrite !nth_overflow; auto. rewrite map_length; auto.
+Qed.
+
+Lemma fold_commit_tb_res ps o k : forall x,
+  tb_res (nth k (e_tbs (fst (fold_left (commit_slot ps) o x))) no_tb) = tb_res (nth k (e_tbs (fst x)) no_tb).
+Proof. induction o; intros; simpl; auto. rewrite IHo. apply commit_slot_tb_res. Qed.
+
+(* phase 1a for testbench k: once its active trigger has been run, later trigger runs leave its result alone *)
+Lemma trig_step_other_tb st o k :
+  o <> OTb k -> nth k (e_tbs (trig_step st o)) no_tb = nth k (e_tbs st) no_tb.
+Proof.
+  intros N. destruct o as [j|j]; simpl.
+  - destruct (t_active (ps_trig (nth j (e_procs st) no_pstate))); auto.
+  - destruct (t_active (tb_trig (nth j (e_tbs st) no_tb))); auto. simpl.
+    apply nth_set_nth_neq. congruence.
+Qed.
+
+Definition owner_eq_dec (a b : owner) : {a = b} + {a <> b}.
+Proof. decide equality; apply Nat.eq_dec. Defined.
+
+Lemma fold_trig_step_samples o : forall st k cu T,
+  (k < length (e_tbs st))%nat ->
+  cu = currs (e_slots st) ->
+  (In (OTb k) o /\ tb_trig (nth k (e_tbs st) no_tb) = T /\ t_active T = true) \/
+  (tb_res (nth k (e_tbs st) no_tb) = compute_result cu T /\ t_active (tb_trig (nth k (e_tbs st) no_tb)) = false) ->
+  tb_res (nth k (e_tbs (fold_left trig_step o st)) no_tb) = compute_result cu T.
+Proof.
+  induction o as [|a o IH]; intros st k cu T L Hc H; simpl.
+  - destruct H as [(F & _)|(H & _)]; [destruct F|exact H].
+  - assert (L' : (k < length (e_tbs (trig_step st a)))%nat).
+    { destruct a as [j|j]; simpl.
+      - destruct (t_active (ps_trig (nth j (e_procs st) no_pstate))); auto.
+      - destruct (t_active (tb_trig (nth j (e_tbs st) no_tb))); auto. simpl. rewrite set_nth_length; auto. }
+    apply IH; auto; [rewrite trig_step_slots; auto|].
+    destruct (owner_eq_dec a (OTb k)) as [->|N].
+    + right. destruct H as [(_ & HT & HA)|(HR & HA)].
+      * simpl. rewrite HT, HA. simpl. rewrite nth_set_nth_eq by auto. simpl. subst cu T. auto.
+      * simpl. rewrite HA. auto.
+    + rewrite (trig_step_other_tb st a k N).
+      destruct H as [(F & HT & HA)|H]; [left|right; auto].
+      destruct F as [F|F]; [congruence|auto].
+Qed.
+
+(* the values a tick (or any trigger) delivers are read from `curr` as it is when the delta that follows the edge's
+   commit begins, i.e. before the registers woken by the same edge have been updated: whatever the processes write in
+   phase 1b and whatever is committed in phase 2 of that delta does not enter the result *)
+Lemma tick_samples_pre_edge ps o st k T :
+  (k < length (e_tbs st))%nat -> In (OTb k) (o_trig o) ->
+  tb_trig (nth k (e_tbs st) no_tb) = T -> t_active T = true ->
+  tb_res (nth k (e_tbs (fst (run_delta ps o st))) no_tb) = compute_result (currs (e_slots st)) T.
+Proof.
+  intros L I HT HA. unfold run_delta.
+  destruct (fold_left (commit_slot ps) (o_commit o)
+              (fold_left (run_proc ps) (o_proc o) (fold_left trig_step (o_trig o) st), false)) as [st3 ch] eqn:E.
+  cbn [fst e_tbs].
+  pose proof (fold_commit_tb_res ps (o_commit o) k
+                (fold_left (run_proc ps) (o_proc o) (fold_left trig_step (o_trig o) st), false)) as G.
+  rewrite E in G. cbn [fst] in G. rewrite G, fold_run_proc_tbs.
+  apply fold_trig_step_samples; auto.
+Qed.
+
+(* ================================================================ testbenches resume on a settled design *)
+Lemma tick_resumes_post_update ps orc sfuel tfuel st st1 :
+  settle ps orc sfuel st = (st1, true) -> covers_oracle orc (length (e_procs st)) ->
+  fst (advance ps orc sfuel tfuel st) = tl_advance (tb_loop ps orc sfuel tfuel st1) /\
+  (forall k, ps_run (nth k (e_procs st1) no_pstate) = false) /\
+  (forall s, In s (e_slots st1) -> sp s = false).
+Proof.
+  intros H C. split; [unfold advance; rewrite H; reflexivity|]. eapply settle_settled; eauto.
+Qed.
+
+(* ================================================================ a concrete instance of the hypotheses *)
+(* process 0: the clock of slot 0; process 1: the documented combinational replacement  o(slot 2) = a(slot 1) + 1;
+   process 2: the documented synchronous replacement, a counter in slot 3 clocked by slot 0 *)
+Definition ex_ps : list proc :=
+  [clock_proc 0 5 10;
+   user_comb 2 (Sh 4 false) [1%nat] (EOp2 OAdd (ESig 1 (Sh 4 false)) (EConst 1 (Sh 1 false)));
+   user_sync 3 (Sh 4 false) 0 0 true None [] (EOp2 OAdd (ESig 3 (Sh 4 false)) (EConst 1 (Sh 1 false)))].
+
+Definition ex_own (k i : nat) : Z :=
+  match k with
+  | 0%nat => if Nat.eqb i 0 then -1 else 0
+  | 1%nat => if Nat.eqb i 2 then -1 else 0
+  | 2%nat => if Nat.eqb i 3 then -1 else 0
+  | _ => 0
+  end.
+
+Lemma ex_disc : disc ex_ps ex_own.
+Proof.
+  constructor.
+  - intros a b i N. unfold ex_own.
+    destruct a as [|[|[|a]]], b as [|[|[|b]]]; try congruence; try apply Z.land_0_r; try apply Z.land_0_l;
+      destruct i as [|[|[|[|i]]]]; reflexivity.
+  - intros k l res cu nx w H. destruct k as [|[|[|k]]]; simpl in H.
+    + unfold clock_run in H. destruct l as [|[|x|x] l]; simpl in H; try tauto.
+      destruct H as [<-|[]]. reflexivity.
+    + destruct H as [<-|[]]. reflexivity.
+    + destruct (tick_fmt res) as [|c [|r vals]]; simpl in H; try tauto.
+      destruct (negb (r =? 0)); simpl in H; [destruct H as [<-|[]]; reflexivity|].
+      destruct (negb (c =? 0)); simpl in H; [destruct H as [<-|[]]; reflexivity|tauto].
+    + destruct k; simpl in H; tauto.
+  - intros k l res cu nx nx' _. destruct k as [|[|[|k]]]; try reflexivity. destruct k; reflexivity.
+Qed.
+
+Lemma ex_write_disjoint : write_disjoint ex_ps.
+Proof. exists ex_own. exact ex_disc. Qed.
+
+(* without write_disjoint the order matters (the shape of S1: two writers of one slot in one delta) *)
+Definition bad_ps : list proc :=
+  [P (fun _ _ _ => false) [] (fun l _ _ _ => PR l [W 0 170 255] None);
+   P (fun _ _ _ => false) [] (fun l _ _ _ => PR l [W 0 187 255] None)].
+Definition bad_st : estate :=
+  ES [Slot 0 0 false] [PS true [] None t_none [] false; PS true [] None t_none [] false] [] 0 0 [].
+
+Lemma write_collision_order_dependent :
+  Permutation [0%nat; 1%nat] [1%nat; 0%nat] /\
+  fold_left (run_proc bad_ps) [0%nat; 1%nat] bad_st <> fold_left (run_proc bad_ps) [1%nat; 0%nat] bad_st.
+Proof. split; [apply perm_swap|]. vm_compute. discriminate. Qed.
